@@ -70,7 +70,17 @@ macro_rules! lookups {
                             }
                         }
                         // integer indexing of mappings
-                        for i in [0usize, 1, pairs.len(), usize::MAX] {
+                        let mut idxs = vec![0usize, 1, pairs.len(), usize::MAX, u32::MAX as usize, u32::MAX as usize + 1, i64::MAX as usize];
+                        for (k, _) in pairs {
+                            if let Canon::Int(i) = k {
+                                if let Ok(u) = usize::try_from(*i) {
+                                    idxs.push(u);
+                                }
+                            }
+                        }
+                        idxs.sort();
+                        idxs.dedup();
+                        for i in idxs {
                             let refv: Option<Canon> = i64::try_from(i).ok().and_then(|ii| pairs.iter().find(|(k, _)| *k == Canon::Int(ii)).map(|(_, v)| v.clone()));
                             let g1 = catch_unwind(AssertUnwindSafe(|| $canon(&n$($data)*[i]))).ok();
                             let g2 = i64::try_from(i).ok().and_then(|ii| { let needle: $ty = $intnode(ii); n$($data)*.as_mapping().and_then(|m| m.get(&needle)).map($canon) });
@@ -221,6 +231,9 @@ fn constructed() -> Vec<Yaml<'static>> {
         Yaml::Value(Scalar::String("1".into())),
         Yaml::Value(Scalar::Integer(1)),
         Yaml::Value(Scalar::Integer(0)),
+        Yaml::Value(Scalar::Integer(4294967296)),
+        Yaml::Value(Scalar::Integer(i64::MAX)),
+        Yaml::Value(Scalar::Integer(-1)),
         Yaml::Value(Scalar::FloatingPoint(OrderedFloat(1.0))),
         Yaml::Value(Scalar::FloatingPoint(OrderedFloat(f64::NAN))),
         Yaml::Value(Scalar::FloatingPoint(OrderedFloat(-0.0))),
@@ -253,8 +266,10 @@ fn constructed() -> Vec<Yaml<'static>> {
     for i in 0..keys.len() {
         for j in 0..keys.len() {
             let mut m = saphyr::Mapping::new();
-            m.insert(keys[i].clone(), Yaml::Value(Scalar::Integer(10)));
-            m.insert(keys[j].clone(), Yaml::Value(Scalar::Integer(20)));
+            // the value depends on the key, not on the position: (i, j) and (j, i) hold the same
+            // pairs in a different order
+            m.insert(keys[i].clone(), Yaml::Value(Scalar::Integer(100 + i as i64)));
+            m.insert(keys[j].clone(), Yaml::Value(Scalar::Integer(100 + j as i64)));
             out.push(Yaml::Mapping(m));
         }
     }
@@ -289,7 +304,7 @@ fn eval_constructed(idx: usize, all: &[Yaml<'static>], acc: &mut Acc) {
             }
         }
     }
-    for other in all.iter().skip(idx).take(40) {
+    for other in all.iter() {
         if y == other && fnv_hash(y) != fnv_hash(other) {
             acc.violation(Violation { key: "equal-but-hash-differs nt=Yaml(constructed)".into(), expected: "equal nodes hash equally".into(), observed: format!("{:?} vs {:?}", canon_yaml(y), canon_yaml(other)), case: json!({"kind": "constructed", "index": idx}), size: 1 });
         }
